@@ -25,9 +25,22 @@ def frac(f):
     return f[0] / f[1]
 
 
-def build_scaled(o, sc):
+INT_CLASSES = {"point": "Point", "pair": "PointPair", "segment": "Segment", "geodesic": "Geodesic", "polygon": "Polygon",
+               "hyperplane": "Hyperplane"}
+
+
+def integral(sc):
+    return all(c[1] == 1 for c in sc)
+
+
+def build_scaled(o, sc, as_int=False):
+    """the object of the spec through the representatives sc[i] * row[i]; as_int: the (integral) representatives are
+    handed over as an integer array - the same numbers in another packaging"""
     H = hc.H()
     cls = o["cls"]
+    if as_int:
+        rows = np.array([[int(v) * c[0] for v in r] for r, c in zip(o["rows"], sc)], dtype=np.int64)
+        return getattr(H, INT_CLASSES[cls])(rows[0] if cls in ("point", "hyperplane") else rows)
     if cls == "tangent":
         c0, c1 = frac(sc[0]), abs(frac(sc[1]))
         x = np.array(o["rows"][0], float) * c0
@@ -42,12 +55,12 @@ def rat_vec(c):
     return np.array([p[0] / p[1] for p in c], float)
 
 
-def observe(run, e, X0):
+def observe(run, e, X0, as_int=False):
     """class specific observations on the rescaled object X (library) against spec values / the unscaled library object"""
     H = hc.H()
     o, sc, obs = e["obj"], e["sc"], e["obs"]
     cls = o["cls"]
-    X = build_scaled(o, sc)
+    X = build_scaled(o, sc, as_int)
     bad = c03.same(X, cls, o, type(X0), X0.shape)
     if bad:
         return ("constructor:" + bad[0], bad[1])
@@ -81,6 +94,12 @@ def observe(run, e, X0):
         Mo, M1 = np.asarray(X0.origin_to().matrix, float), np.asarray(X.origin_to().matrix, float)
         if not hc.mat_proj_close(Mo, M1, 1e-8):
             return ("origin_to_as_projective_map", "%r vs unscaled %r" % (np.round(M1, 6).tolist(), np.round(Mo, 6).tolist()))
+    if cls == "hyperplane":
+        # the reflection across the hyperplane: the exact matrix of the spec, whatever representative of the normal
+        for rep in (X.reflection_across(), X.reflection_across()):           # asked twice: the first call may not move X
+            bad = c03.same(rep, "isometry", dict(h=obs["refl"]), H.Isometry, ())
+            if bad:
+                return ("hyperplane.reflection_across:" + bad[0], bad[1])
     if cls == "pair" and "coshsq" in obs:
         p, q = X.get_end_pair(as_points=True)
         d = float(p.distance(q))
@@ -142,7 +161,7 @@ def observe(run, e, X0):
 
 def rescale(run):
     c = core.cfg(init="RInit", next_="RNext", constants=dict(N=2, MaxLen=0),
-                 invariants=["PrimInvariant", "TangentClassInvariant", "CoshInvariant", "TowardsIsTangent", "AlongOnGeodesic", "EmitRescale"],
+                 invariants=["PrimInvariant", "TangentClassInvariant", "CoshInvariant", "ReflInvariant", "TowardsIsTangent", "AlongOnGeodesic", "EmitRescale"],
                  view="RView", constraints=["InPatterns"])
     r = run.tlc("hyp/Rescale.tla", c, name="Rescale", workers=min(8, core.NCPU), emit_prefix="CASE ")
     seen = set()
@@ -167,6 +186,17 @@ def rescale(run):
         if bad:
             run.violation("rescale:%s:%s:sc=%s" % (o["cls"], json.dumps(o.get("rows")), json.dumps(e["sc"])), "rescale:" + bad[0],
                           dict(obj=o, scale=e["sc"], A=e["A"], observed=bad[1]))
+        if o["cls"] in INT_CLASSES and integral(e["sc"]):
+            # integral representatives handed over as integer arrays (both sentences of the property at once)
+            run.case(key=None, nontrivial=True, action="rescale_int:" + o["cls"])
+            try:
+                with np.errstate(all="ignore"):
+                    bad = observe(run, e, X0, as_int=True)
+            except Exception as ex:
+                bad = ("raised", "%s: %s" % (type(ex).__name__, ex))
+            if bad:
+                run.violation("rescale_int:%s:%s:sc=%s" % (o["cls"], json.dumps(o.get("rows")), json.dumps(e["sc"])), "rescale_int:" + bad[0],
+                              dict(obj=o, scale=e["sc"], A=e["A"], packaging="int64 ndarray", observed=bad[1]))
         if not trivial and o["cls"] in ("tangent", "segment"):
             run.sample(dict(kind="rescale case (%s)" % o["cls"], obj=o, scale=e["sc"], obs=e["obs"]))
     run.traces += n
@@ -255,6 +285,10 @@ def run(run, replay=None):
         "only the installed NumPy (2.x) can be exercised; other versions accepted by setup.py are not covered",
         "scale factors from {-3, -1, -1/2, 1/3, 2, 1} in 12 patterns per object; objects of HypAction.tla (dimension 2)",
         "circle / sphere parameters under rescaling are compared with the library's own unscaled output (metamorphic)",
+        "packagings: Python int/float, NumPy float64/float32/int64/int32/int16/uint8 scalars, 0-d arrays and ndarrays of them, nested "
+        "lists, tuples; unsigned packagings only for entry points whose integral test value has no negative entry",
+        "integral scale patterns are also replayed with the representatives handed over as int64 arrays (point, pair, segment, "
+        "geodesic, polygon, hyperplane)",
     ]
     c12_pack.run(run)
     rescale(run)
